@@ -71,7 +71,7 @@ FAIL_CLASSES = ['missing-query', 'corrupt-query', 'non-hdf5-query',
 
 def gen_cases(tier, seed):
     cases = []
-    n = 1 if tier == 'quick' else 4
+    n = 1 if tier == 'quick' else 12
     for k in range(n):
         s = 9000 + 17 * seed + k
         cases.append({'kind': 'chain', 'seed': s})
